@@ -22,6 +22,7 @@ type c16Case struct {
 	ID     int      `json:"identity_len"`
 	Pat    int      `json:"identity_pattern"`
 	Shift  bool     `json:"shifted_followup"` // a second derivation whose CK'/identity boundary is moved by one octet (same concatenation)
+	KeyPat int      `json:"key_pattern,omitempty"` // 0: patterned keys, 1: IK' and CK' all zero, 2: IK' all 0xFF and CK' all zero, 3: IK' all zero
 	GC     bool     `json:"held_across_gc,omitempty"`
 	Before *c16Case `json:"derivation_before,omitempty"` // the derivation whose results the caller still holds while this one runs
 }
@@ -90,6 +91,15 @@ func init() {
 					}
 				}
 			}
+			for kp := 1; kp <= 3; kp++ {
+				for _, kl := range [][2]int{{16, 16}, {1, 1}, {1, 64}, {32, 33}, {64, 64}} {
+					for _, id := range []int{0, 15, 16, 31} {
+						if c.Mine() {
+							evalC16(c, c16Case{IK: kl[0], CK: kl[1], ID: id, Pat: 0, KeyPat: kp})
+						}
+					}
+				}
+			}
 			for id := 0; id < 256; id++ {
 				if !c.Mine() {
 					continue
@@ -117,6 +127,14 @@ func init() {
 func evalC16(c *engine.Ctx, cs c16Case) {
 	c.Evals++
 	ik, ck := univ.Pat(cs.IK, 100+cs.IK), univ.Pat(cs.CK, 200+cs.CK)
+	switch cs.KeyPat {
+	case 1: // keys made of zero octets only (a test USIM, a null algorithm)
+		ik, ck = univ.Fill(cs.IK, 0), univ.Fill(cs.CK, 0)
+	case 2:
+		ik, ck = univ.Fill(cs.IK, 0xff), univ.Fill(cs.CK, 0)
+	case 3:
+		ik, ck = univ.Fill(cs.IK, 0), univ.Pat(cs.CK, 200+cs.CK)
+	}
 	id := c16Identity(cs.ID, cs.Pat)
 	var ke, ka, kr, msk, emsk []byte
 	var err error
